@@ -55,7 +55,8 @@ def case_st(draw, relative=False):
                 elif m['k'] == 'date' and m['op'] == 'rel':
                     t = dict(t, date=draw(st.sampled_from(['2000-06-01', '2900-01-01', None])))
             lits = [w for w in lang.WORDS if w.isalnum() and w in r['pattern']]
-            extra = draw(st.lists(st.one_of(lang.word, st.sampled_from(['12345', '#1234', 'UBER UBER', 'aa', '"AMZN"', "'", '\\'])), max_size=2))
+            wit = [d for a, ds in csvrules.WITNESS.items() if a in r['pattern'] for d in ds]
+            extra = draw(st.lists(st.one_of(lang.word, st.sampled_from(['12345', '#1234', 'UBER UBER', 'aa', '"AMZN"', "'", '\\'] + wit + wit)), max_size=2))
             t = dict(t, description=lang.flip_case(' '.join(lits + extra) or 'UBER', draw(st.one_of(st.just(0), st.integers(0, 65535)))))
         txns.append(t)
     return {'rules': rules, 'txns': txns}
